@@ -337,6 +337,13 @@ fn explore(plan: &Plan, kf: &[KnownFinding], prop: &str) -> Stats {
             } else {
                 None
             };
+            // the same sentence through a NEIGHBOUR dictionary immediately before this dictionary
+            // sees it (alternately the twin with swapped category ids and the next dictionary of
+            // the family): nothing of that may leak into this dictionary's result
+            let neighbour_tokenizers: Vec<vibrato::Tokenizer> = neighbours
+                .iter()
+                .filter_map(|v| v.build().ok().and_then(|(d, _)| make_tokenizer(d, Opts { ignore_space: opts.ignore_space && v.dict.cats.iter().any(|c| c.name == "SPACE"), mgl: opts.mgl }).ok()))
+                .collect();
             // C01 / C02: the statements hold on a reused worker as well (enumeration order, then
             // reverse order); the fresh-worker tokens are the reference for that pass
             let reuse = which != Which::C03;
@@ -352,6 +359,9 @@ fn explore(plan: &Plan, kf: &[KnownFinding], prop: &str) -> Stats {
                     if *r > 0 {
                         st.add(RULE_NAMES[i], u64::from(*r));
                     }
+                }
+                if !neighbour_tokenizers.is_empty() {
+                    let _ = run_fresh(&neighbour_tokenizers[si % neighbour_tokenizers.len()], s, false);
                 }
                 let run = run_fresh(&t, s, true);
                 let run = match run {
